@@ -118,6 +118,7 @@ def run(ctx: Ctx, rep: Report) -> None:
     rep.rule("C16-R4", "both variants consume the single-root (bulk) walk completely and in order", floor=4)
     rep.rule("C16-R5", "the wrapper keeps '0' and pythonises the other cells", floor=2)
     rep.rule("C16-R6", "no cell from outside the table: the walk's containment / once-only filter (shared with C01-R1/R2)", floor=5)
+    rep.rule("C16-R7", "the GETBULK walk used by bulktable delivers what the GETNEXT walk delivers (shared with C02-R1..R5)", floor=30)
     rep.assumptions += ["the walk delivers exactly the instances below the root (C01 / C02)", "table() is addressed by the entry OID and bulktable() by the table OID, as documented"]
     client = ctx.client()
     tab = ctx.fn(TABLIFY)
@@ -142,7 +143,11 @@ def run(ctx: Ctx, rep: Report) -> None:
         want_offset = 1 if is_bulk else 0
         ok = None
         detail = ""
-        if base is not None:
+        foreign = sorted({n.id for n in ast.walk(defs.expand(base)) if isinstance(n, ast.Name) and n.id not in (oid_param, "len")}) if base is not None else []
+        if foreign:
+            ok = False
+            detail = f"the split position `{norm(base)}` depends on {foreign}, not only on the length of the OID given: fetched data can shift column and index"
+        elif base is not None:
             ok = True
             for length in range(1, 14):
                 def atom(expr: ast.AST, length=length):
@@ -183,7 +188,14 @@ def run(ctx: Ctx, rep: Report) -> None:
                     lst = norm(c.func.value)
                     vb = bound.get("varbinds")
                     okc = vb is not None and norm(vb) == lst and not loop.orelse
+        if not okc:
+            okc = drains_through_helper(ctx, meth, bound.get("varbinds"), walk_calls)
         rep.check(okc, "C16-R4", meth.site(), f"{meth.name}: every binding the walk yields is collected, in order, and handed to tablify", key=f"{meth.key}|collects-all")
+    from . import c02
+
+    sub = Report(rep.prop, rep.tier)
+    c02.run(ctx, sub)
+    rep.adopt_rules(sub, "C16-R7", ["C02-R1", "C02-R2", "C02-R3", "C02-R4", "C02-R5"])
     if len(variants) < 2:
         rep.undecided("C16-R1", f"{client.module.path} (Client)", "both table variants call tablify", f"{len(variants)} call site(s)")
 
@@ -296,3 +308,31 @@ def run(ctx: Ctx, rep: Report) -> None:
                     st = n
             ok = st is not None and isinstance(st.targets[0], ast.Name) and norm(puts[0].value) == st.targets[0].id
         rep.check(ok, "C16-R5", meth.site(), f"wrapper {name}: the row index under '0' is carried over unchanged", key=f"{meth.key}|index-kept")
+
+
+def drains_through_helper(ctx: Ctx, meth: FuncInfo, vb_arg, walk_calls) -> bool:
+    """``rows = await self._helper(<walk>)`` where the helper appends every item of its async-iterable argument and returns the list."""
+    if not isinstance(vb_arg, ast.Name) or len(walk_calls) != 1:
+        return False
+    defs = ctx.defs(meth)
+    val = defs.single(vb_arg.id)
+    if isinstance(val, ast.Await):
+        val = val.value
+    if not isinstance(val, ast.Call) or len(val.args) != 1:
+        return False
+    arg = val.args[0]
+    if isinstance(arg, ast.Name):
+        arg = defs.single(arg.id) or arg
+    if arg is not walk_calls[0]:
+        return False
+    for helper in [c for c in ctx.r.callees(meth, val) if isinstance(c, FuncInfo)]:
+        params = [p for p in helper.params if p not in ("self", "cls")]
+        loops = [n for n in own_nodes(helper.node) if isinstance(n, (ast.AsyncFor, ast.For))]
+        rets = [n for n in own_nodes(helper.node) if isinstance(n, ast.Return) and n.value is not None]
+        if len(params) == 1 and len(loops) == 1 and len(rets) == 1 and norm(loops[0].iter) == params[0] and not loops[0].orelse:
+            body = loops[0].body
+            if len(body) == 1 and isinstance(body[0], ast.Expr) and isinstance(body[0].value, ast.Call):
+                c = body[0].value
+                if isinstance(c.func, ast.Attribute) and c.func.attr == "append" and len(c.args) == 1 and norm(c.args[0]) == norm(loops[0].target) and norm(rets[0].value) == norm(c.func.value):
+                    return True
+    return False
